@@ -5,51 +5,61 @@ namespace CueVerif.ModCache
 theorem inv_idle {n s t c s' o} (h : Inv n s) (hp : s.pc t = .idle)
     (hn : next n s t c = some (s', o)) : Inv n s' := by
   open_next
-  all_goals step
+  all_goals step_pre
+  all_goals step_main
 
 theorem inv_fStatDir {n s t c s' o} (h : Inv n s) (hp : s.pc t = .fStatDir)
     (hn : next n s t c = some (s', o)) : Inv n s' := by
   open_next
-  all_goals step
+  all_goals step_pre
+  all_goals step_main
 
 theorem inv_fStatMark {n s t c s' o} (h : Inv n s) (hp : s.pc t = .fStatMark)
     (hn : next n s t c = some (s', o)) : Inv n s' := by
   open_next
-  all_goals step
+  all_goals step_pre
+  all_goals step_main
 
 theorem inv_cStatDir {n s t c s' o} (h : Inv n s) (hp : s.pc t = .cStatDir)
     (hn : next n s t c = some (s', o)) : Inv n s' := by
   open_next
-  all_goals step
+  all_goals step_pre
+  all_goals step_main
 
 theorem inv_cStatMark {n s t c s' o} (h : Inv n s) (hp : s.pc t = .cStatMark)
     (hn : next n s t c = some (s', o)) : Inv n s' := by
   open_next
-  all_goals step
+  all_goals step_pre
+  all_goals step_main
 
 theorem inv_zEnter {n s t c s' o} (h : Inv n s) (hp : s.pc t = .zEnter)
     (hn : next n s t c = some (s', o)) : Inv n s' := by
   open_next
-  all_goals step
+  all_goals step_pre
+  all_goals step_main
 
 theorem inv_zStat1 {n s t c s' o} (h : Inv n s) (hp : s.pc t = .zStat1)
     (hn : next n s t c = some (s', o)) : Inv n s' := by
   open_next
-  all_goals step
+  all_goals step_pre
+  all_goals step_main
 
 theorem inv_zLock {n s t c s' o} (h : Inv n s) (hp : s.pc t = .zLock)
     (hn : next n s t c = some (s', o)) : Inv n s' := by
   open_next
-  all_goals step
+  all_goals step_pre
+  all_goals step_main
 
 theorem inv_zStat2 {n s t c s' o} (h : Inv n s) (hp : s.pc t = .zStat2)
     (hn : next n s t c = some (s', o)) : Inv n s' := by
   open_next
-  all_goals step
+  all_goals step_pre
+  all_goals step_main
 
 theorem inv_zClean {n s t c s' o} (h : Inv n s) (hp : s.pc t = .zClean)
     (hn : next n s t c = some (s', o)) : Inv n s' := by
   open_next
-  all_goals step
+  all_goals step_pre
+  all_goals step_main
 
 end CueVerif.ModCache
